@@ -1,5 +1,6 @@
 (* C15 -- All observation channels of a simulation agree; illegal inputs are refused.
-   Only statements + `exact`; proofs in Sim/TraceProofs.v and IO/VcdProofs.v. *)
+   Statements + `exact` (proofs in Sim/TraceProofs.v and IO/VcdProofs.v), then non-vacuity
+   Examples decided by vm_compute. *)
 From PyRTL Require Import Base.PyZ Sim.TraceBase Sim.Trace Gen.InputGuards Sim.TraceProofs IO.Vcd IO.VcdProofs.
 From Coq Require Import Permutation Sorted String.
 Import List ListNotations.
